@@ -274,7 +274,7 @@ func c14Decimal(c *engine.Ctx, in []byte, args map[string]string) {
 	if d < 0 || d > 17 {
 		d = 17
 	}
-	exact, _ := new(big.Rat).SetString(new(big.Float).SetFloat64(f).Text('f', -1))
+	exact := new(big.Rat).SetFloat64(f) // the binary value itself, not a decimal rendering of it
 	short, _ := new(big.Rat).SetString(stdconv.FormatFloat(f, 'f', -1, 64))
 	want1, want2 := roundHalfAway(exact, d), roundHalfAway(short, d)
 	for _, dst := range dests() {
@@ -290,7 +290,25 @@ func c14Decimal(c *engine.Ctx, in []byte, args map[string]string) {
 			// beyond ~15 significant digits the float64 product f·10^dec is itself rounded: accept a well-formed
 			// decimal with at most dec decimals and no trailing zero that lies within half a unit of the last
 			// requested decimal plus that float64 rounding (8 ulp) of the argument
-			ok := regexp.MustCompile(`^-?[0-9]+(\.[0-9]*[1-9])?$`).MatchString(out)
+			// Below 10^15 scaled units the only inexact step is the product f·10^dec itself: when it is not exactly
+			// representable the library may see a neighbouring float64 (one ulp either way) and round that; when it
+			// is exact (every true tie such as -2.5, 0.125·10^2) the result must be the half-away rounding.
+			scale := new(big.Rat).SetInt(new(big.Int).Exp(big.NewInt(10), big.NewInt(int64(d)), nil))
+			prod := new(big.Rat).Mul(exact, scale)
+			if pf, isExact := prod.Float64(); !isExact && math.Abs(pf) < 1e15 {
+				near := false
+				for _, q := range []float64{pf, math.Nextafter(pf, math.Inf(1)), math.Nextafter(pf, math.Inf(-1))} {
+					qr := new(big.Rat).SetFloat64(q)
+					if qr != nil && roundHalfAway(qr.Quo(qr, scale), d) == out {
+						near = true
+					}
+				}
+				if near {
+					c.Count("decimal-within-one-ulp-of-product", 1)
+					continue
+				}
+			}
+			ok := math.Abs(f)*math.Pow10(d) >= 1e15 && regexp.MustCompile(`^-?[0-9]+(\.[0-9]*[1-9])?$`).MatchString(out)
 			if i := strings.IndexByte(out, '.'); ok && i >= 0 && len(out)-i-1 > d {
 				ok = false
 			}
